@@ -32,3 +32,17 @@ Example C08_print_instance :
   = TOpenParen :: TExists :: TVar 0 :: TComma :: TVar 1 :: THash :: TOpenSquare :: TVar 0 :: TComma :: TNot :: TVar 2 :: TCloseSquare
       :: TImpliesInv :: TNum 1%N :: TCloseParen :: nil.
 Proof. vm_compute; reflexivity. Qed.
+
+(** the tie by translation (DESIGN 15.7b): for ANY symbol alternation and arm tables - in every run the ones the translator
+    has just read from src/parser.rs - two conditions decided by computation give: the leftmost-first alternation followed by
+    the symbol arms computes what scan_symbol / token_of_sym compute, on every input, and the keyword arms are the keyword table *)
+From Rsbdd Require Import Syntax.SrcTables.
+Theorem C08_source_symbols alts arms : alternation_ok alts = true -> same_map arms model_symbols = true ->
+  forall l, match first_match alts l with
+            | Some k => exists s, scan_symbol l = Some (s, skipn (length k) l) /\ assoc k arms = Some (token_of_sym s)
+            | None => scan_symbol l = None
+            end.
+Proof. exact (src_lexer_agrees alts arms). Qed.
+Theorem C08_source_keywords arms : same_map arms keywords = true -> forall w, assoc w arms = assoc w keywords.
+Proof. exact (src_keywords_agree arms). Qed.
+Print Assumptions C08_source_symbols. Print Assumptions C08_source_keywords.
